@@ -26,23 +26,23 @@ type sliceDataPtr struct {
 }
 
 var noopPkgs = map[string]bool{
-	"github.com/uber/kraken/utils/log": true,
-	"go.uber.org/zap":                  true,
-	"go.uber.org/zap/zapcore":          true,
-	"github.com/uber-go/tally":         true,
-	"go.opentelemetry.io/otel":         true,
-	"go.opentelemetry.io/otel/trace":   true,
-	"go.opentelemetry.io/otel/attribute": true,
-	"go.opentelemetry.io/otel/codes":   true,
+	"github.com/uber/kraken/utils/log":     true,
+	"go.uber.org/zap":                      true,
+	"go.uber.org/zap/zapcore":              true,
+	"github.com/uber-go/tally":             true,
+	"go.opentelemetry.io/otel":             true,
+	"go.opentelemetry.io/otel/trace":       true,
+	"go.opentelemetry.io/otel/attribute":   true,
+	"go.opentelemetry.io/otel/codes":       true,
 	"go.opentelemetry.io/otel/propagation": true,
-	"log":                              true,
-	"runtime/debug":                    true,
-	"runtime/trace":                    true,
-	"runtime/pprof":                    true,
-	"internal/race":                    true,
-	"internal/godebug":                 true,
-	"internal/testlog":                 true,
-	"expvar":                           true,
+	"log":                                  true,
+	"runtime/debug":                        true,
+	"runtime/trace":                        true,
+	"runtime/pprof":                        true,
+	"internal/race":                        true,
+	"internal/godebug":                     true,
+	"internal/testlog":                     true,
+	"expvar":                               true,
 }
 
 // noopResult returns zero values; Fatal/Panic style functions abort.
@@ -149,7 +149,9 @@ func init() {
 	reg(ba+"CountString", func(m *Machine, fr *frame, a []Value) Value { return m.countByte(sliceBytes(a[0]), a[1]) })
 	reg(ba+"Index", func(m *Machine, fr *frame, a []Value) Value { return m.indexSub(sliceBytes(a[0]), sliceBytes(a[1])) })
 	reg(ba+"IndexString", func(m *Machine, fr *frame, a []Value) Value { return m.indexSub(sliceBytes(a[0]), sliceBytes(a[1])) })
-	reg(ba+"Compare", func(m *Machine, fr *frame, a []Value) Value { return m.compareBytes(sliceBytes(a[0]), sliceBytes(a[1])) })
+	reg(ba+"Compare", func(m *Machine, fr *frame, a []Value) Value {
+		return m.compareBytes(sliceBytes(a[0]), sliceBytes(a[1]))
+	})
 	reg(ba+"Cutover", func(m *Machine, fr *frame, a []Value) Value { return i64(64) })
 	reg(ba+"MakeNoZero", func(m *Machine, fr *frame, a []Value) Value {
 		n := concInt(m, a[0], "MakeNoZero")
@@ -161,8 +163,12 @@ func init() {
 	})
 	reg("strings.Index", func(m *Machine, fr *frame, a []Value) Value { return m.indexSub(sliceBytes(a[0]), sliceBytes(a[1])) })
 	reg("bytes.Index", func(m *Machine, fr *frame, a []Value) Value { return m.indexSub(sliceBytes(a[0]), sliceBytes(a[1])) })
-	reg("strings.Compare", func(m *Machine, fr *frame, a []Value) Value { return m.compareBytes(sliceBytes(a[0]), sliceBytes(a[1])) })
-	reg("bytes.Compare", func(m *Machine, fr *frame, a []Value) Value { return m.compareBytes(sliceBytes(a[0]), sliceBytes(a[1])) })
+	reg("strings.Compare", func(m *Machine, fr *frame, a []Value) Value {
+		return m.compareBytes(sliceBytes(a[0]), sliceBytes(a[1]))
+	})
+	reg("bytes.Compare", func(m *Machine, fr *frame, a []Value) Value {
+		return m.compareBytes(sliceBytes(a[0]), sliceBytes(a[1]))
+	})
 	reg("internal/stringslite.Index", func(m *Machine, fr *frame, a []Value) Value { return m.indexSub(sliceBytes(a[0]), sliceBytes(a[1])) })
 	reg("bytes.Equal", func(m *Machine, fr *frame, a []Value) Value {
 		return m.strEq(mkStr(sliceBytes(a[0])), mkStr(sliceBytes(a[1])))
@@ -233,7 +239,9 @@ func init() {
 		return s
 	})
 	reg("fmt.Errorf", func(m *Machine, fr *frame, a []Value) Value {
+		m.opaqueFmt++
 		s, wrapped := m.format(fr, a[0], a[1].(Slice).a)
+		m.opaqueFmt--
 		return m.newFmtError(s, wrapped)
 	})
 	reg("fmt.Sprint", func(m *Machine, fr *frame, a []Value) Value { return m.sprint(fr, a[0].(Slice).a, false) })
@@ -541,9 +549,14 @@ func (m *Machine) argString(fr *frame, a Value, verb byte, flags string) Value {
 		}
 		if verb == 'd' || verb == 'v' {
 			_, signed, _ := intInfo(t)
+			if m.opaqueFmt > 0 {
+				m.res.Notes["error messages: symbolic integers are rendered as a placeholder (message text is never compared)"] = true
+				return "<sym>"
+			}
 			return m.formatSymInt(fr, v, signed)
 		}
-		m.unsupported("formatting symbolic integer with %%%c", verb)
+		m.res.Notes["symbolic integer under a non-decimal verb rendered as a placeholder"] = true
+		return "<sym>"
 	case Slice:
 		if sl, ok := under(t).(*types.Slice); ok {
 			if b, ok := under(sl.Elem()).(*types.Basic); ok && b.Kind() == types.Uint8 && (verb == 's' || verb == 'x' || verb == 'q') {
